@@ -234,25 +234,48 @@ func runC06(c *Ctx, prop string) {
 			if r := role(ov[0].Call.Args[1]); r != "InjectTag" {
 				bad = append(bad, "argument of override is built from "+r+" (want the injected tag)")
 			}
-			// the override result is formatted into `...` and given to ReplaceAll
+			// the override result is rendered by format() between two backticks (Sprintf or plain
+			// concatenation) and given to ReplaceAll
 			fm := callsIn(inject, "(file.tagItems).format")
-			sp := callsIn(inject, "fmt.Sprintf")
 			if len(fm) != 1 || fm[0].Call.Args[0] != ov[0] {
 				bad = append(bad, "the merged tag list is not the one rendered")
-			}
-			if len(sp) != 1 {
-				bad = append(bad, "literal not rendered by one Sprintf")
-			} else if f, _ := constString(sp[0].Call.Args[0]); f != "`%s`" {
-				bad = append(bad, fmt.Sprintf("literal rendered with format %q (want backtick %%s backtick)", f))
+			} else {
+				okLit := false
+				for _, ra := range callsIn(inject, "(*regexp.Regexp).ReplaceAll") {
+					repl := ra.Call.Args[2]
+					if cv, ok := repl.(*ssa.Convert); ok {
+						repl = cv.X
+					}
+					parts := renderParts(repl)
+					if len(parts) == 3 && parts[0] == "const:`" && parts[2] == "const:`" && parts[1] == "val:"+fm[0].Name() {
+						okLit = true
+					} else if len(parts) > 0 {
+						bad = append(bad, "the new literal is not backtick + rendered tags + backtick: "+strings.Join(parts, " + "))
+					}
+				}
+				if !okLit && len(bad) == 0 {
+					bad = append(bad, "the rendered tags are not installed as the replacement literal")
+				}
 			}
 		}
-		// format(): Sprintf("%s:%s") joined by " "
+		// format(): each item rendered key ":" value, joined by " "
 		if ff := p.Method("file", "tagItems", "format"); ff != nil {
 			c.Funcs[fnName(ff)] = true
 			okFmt, okJoin := false, false
-			for _, call := range callsIn(ff, "fmt.Sprintf") {
-				if f, _ := constString(call.Call.Args[0]); f == "%s:%s" {
-					okFmt = true
+			for _, b := range ff.Blocks {
+				for _, ins := range b.Instrs {
+					call, ok := ins.(*ssa.Call)
+					if !ok || calleeName(&call.Call) != "builtin.append" {
+						continue
+					}
+					el := elemOfVariadic(call.Call.Args[1])
+					if el == nil {
+						continue
+					}
+					parts := renderParts(el)
+					if len(parts) == 3 && strings.HasSuffix(parts[0], ".key") && parts[1] == "const::" && strings.HasSuffix(parts[2], ".value") {
+						okFmt = true
+					}
 				}
 			}
 			for _, call := range callsIn(ff, "strings.Join") {
@@ -527,4 +550,87 @@ func runFreshFileSet(c *Ctx, rule string) {
 	if n == 0 {
 		c.Unk(rule, fnName(parse), "fresh-fileset", parse.Pos(), "no go/parser.ParseFile call found")
 	}
+}
+
+
+// renderParts flattens a string built by concatenation or by fmt.Sprintf with a format made of
+// %s/%v verbs and literal text into its parts: "const:<text>", "field:<x>.<name>" for loads of
+// struct fields, "val:<ssa name>" otherwise. Nil when the shape is not recognised.
+func renderParts(v ssa.Value) []string {
+	switch x := v.(type) {
+	case *ssa.Const:
+		if s, ok := constString(x); ok {
+			return []string{"const:" + s}
+		}
+	case *ssa.BinOp:
+		if x.Op == token.ADD {
+			a, b := renderParts(x.X), renderParts(x.Y)
+			if a == nil || b == nil {
+				return nil
+			}
+			return append(a, b...)
+		}
+	case *ssa.Call:
+		if calleeName(&x.Call) == "fmt.Sprintf" {
+			f, ok := constString(x.Call.Args[0])
+			if !ok {
+				return nil
+			}
+			args := variadicElems(x.Call.Args[1])
+			// stores are found in no particular order: order them by index
+			ordered := make([]ssa.Value, len(args))
+			if sl, ok := x.Call.Args[1].(*ssa.Slice); ok {
+				if al, ok := sl.X.(*ssa.Alloc); ok {
+					for _, r := range refs(al) {
+						if ia, ok := r.(*ssa.IndexAddr); ok {
+							k, _ := constInt(ia.Index)
+							for _, rr := range refs(ia) {
+								if st, ok := rr.(*ssa.Store); ok && st.Addr == ia && int(k) < len(ordered) {
+									ordered[k] = st.Val
+								}
+							}
+						}
+					}
+				}
+			}
+			var out []string
+			ai := 0
+			for i := 0; i < len(f); {
+				if f[i] == '%' && i+1 < len(f) && (f[i+1] == 's' || f[i+1] == 'v') {
+					if ai >= len(ordered) || ordered[ai] == nil {
+						return nil
+					}
+					sub := renderParts(stripIface(ordered[ai]))
+					if sub == nil {
+						return nil
+					}
+					out = append(out, sub...)
+					ai++
+					i += 2
+					continue
+				}
+				j := i
+				for j < len(f) && f[j] != '%' {
+					j++
+				}
+				if j == i {
+					return nil // unsupported verb
+				}
+				out = append(out, "const:"+f[i:j])
+				i = j
+			}
+			return out
+		}
+		return []string{"val:" + x.Name()}
+	case *ssa.UnOp:
+		if fa, ok := x.X.(*ssa.FieldAddr); ok {
+			return []string{"field:" + fa.X.Name() + "." + fieldAddrName(fa)}
+		}
+	case *ssa.Field:
+		return []string{"field:" + x.X.Name() + "." + fieldValName(x)}
+	}
+	if v == nil {
+		return nil
+	}
+	return []string{"val:" + v.Name()}
 }
